@@ -513,3 +513,27 @@ def shutdown_conformance(ctx, items):
         notes.append('DRIFT property=C14 %d of %d crash runs end their processes in an order Shutdown.tla does not allow (first: %s at event %d of %s); '
                      'code and L2 model disagree, not a violation' % (len(v), len(cases), clause, step, json.dumps(cases[idx])[:300]))
     return {'l2_shutdown_traces_checked': len(cases), 'l2_shutdown_trace_drift': len(v), 'l2_trace_states': st}, notes
+
+
+# ------------------------------------------------------------------ Managed.tla (C15, managed topologies)
+
+def managed_model(ctx):
+    """TLC exhaustive: counters in bounds, receipts always found, tasks placed once, compilation completes."""
+    spec = os.path.join(SPEC_DIR, 'Managed.tla')
+    cfgs = [(2, 1, 2, 1)] if ctx.quick else [(2, 1, 2, 1), (2, 1, 3, 2), (2, 2, 3, 0), (3, 1, 3, 1)]
+    states = trans = 0
+    per = {}
+    for nm, nw, k1, k2 in cfgs:
+        cfg = os.path.join(ctx.scratch, 'MG_%d_%d_%d_%d.cfg' % (nm, nw, k1, k2))
+        with open(cfg, 'w') as f:
+            f.write('SPECIFICATION Spec\nCONSTANTS NM = %d\n NW = %d\n K1 = %d\n K2 = %d\n' % (nm, nw, k1, k2)
+                    + ''.join('INVARIANT %s\n' % i for i in ('NoError', 'ServerCountersInBounds', 'ManagerCountersInBounds', 'PlacedOnce', 'Completes'))
+                    + 'CHECK_DEADLOCK FALSE\n')
+        r = common.tlc(spec, cfg, scratch=ctx.scratch, timeout=3000, workers=8, heap='8g')
+        if not r.ok:
+            m = re.search(r'Invariant (\w+) is violated', r.out)
+            raise common.MachineryError('Managed.tla (%s): %s' % ((nm, nw, k1, k2), 'invariant %s violated on the model of the current code' % m.group(1) if m else r.error[:400]))
+        states += r.distinct
+        trans += r.states
+        per['%dm x %dw, map %d then %d' % (nm, nw, k1, k2)] = [r.distinct, r.states, r.depth]
+    return {'l2_managed_states': states, 'l2_managed_transitions': trans, 'l2_managed_configs': per}
